@@ -82,7 +82,10 @@ def _viol(sh, kind, case, design, src, **kw):
 
 def _run(sh, design, src, mod, rng, case, modes, ncyc, judge, reps):
   seq = M.gen_inputs(rng, design, ncyc)
-  reftrace, ref = M.reference_trace(design, seq)
+  # half of the designs are brought up with the simulator's own sim_reset() (the registers that do not test reset keep running
+  # through it), the others with two reset cycles driven by the harness
+  use_sim_reset = ("values" in judge or "ff" in judge) and rng.random() < 0.5
+  reftrace, ref = M.reference_trace(design, seq, sim_reset=use_sim_reset)
   if reftrace is None:
     sh.inconclusive("reference-did-not-settle(generator produced a bit-level loop)")
     return None
@@ -125,8 +128,10 @@ def _run(sh, design, src, mod, rng, case, modes, ncyc, judge, reps):
     first_pass_keys = None
     bad = False
     try:
+      if use_sim_reset:
+        top.sim_reset(); tr.take(); captured.clear(); stats["runs_started_with_sim_reset"] += 1
       for cyc, inp in enumerate(seq):
-        M.set_inputs(top, live, inp, widths, int(cyc < 2))
+        M.set_inputs(top, live, inp, widths, int(cyc < 2 and not use_sim_reset))
         tr.take(); captured.clear()
         top.sim_eval_combinational()
         ev = tr.take()
